@@ -228,6 +228,16 @@ class SymBytesIO(object):
     elif whence == 1: self.pos += off
     else: self.pos = len(self.data) + off
     return self.pos
+  def truncate(self, size=None):
+    if size is None: size = self.pos
+    del self.data[size:]
+    return size
+  def readable(self): return True
+  def writable(self): return True
+  def seekable(self): return True
+  def flush(self): pass
+  @property
+  def closed(self): return False
   def getvalue(self): return SymBytes(self.data).concrete()
   def getbuffer(self): return SymBytes(self.data)
   def close(self): pass
